@@ -556,6 +556,29 @@ def r13_pairing(idx, r):
     pairing_rule(idx, r, ["armi.reactor.grids"], 40)
 
 
+def r15_bounds_guards_and_polar_axes(idx, r):
+    """(a) in a bounds-defined direction a negative index would wrap around to the far end of the bounds array: every `*ByBounds` helper of
+    StructuredGrid refuses it - the base of a cell like its centre.  (b) ThetaRZGrid.getCoordinates converts (theta, r, z) to
+    (r cos theta, r sin theta, z): x carries the cosine."""
+    sg = idx.cls(SG)
+    n = 0
+    for name, f in sorted(sg.methods.items()):
+        if not name.endswith("ByBounds"):
+            continue
+        n += 1
+        ix = f.params()[0]
+        guard = [x for x in f.node.body if isinstance(x, ast.If) and norm(x.test) in (f"{ix} < 0", f"0 > {ix}") and any(isinstance(y, ast.Raise) for y in x.body)]
+        r.require(bool(guard), f"StructuredGrid.{name}:negative-index-refused", f, msg=f"{name} indexes the bounds with `{ix}` unguarded: a negative index silently answers from the other end of the mesh, while the sibling helpers refuse it")
+    if n < 2:
+        raise AnchorMissing("StructuredGrid *ByBounds helpers")
+    g = idx.method("armi.reactor.grids.thetarz.ThetaRZGrid", "getCoordinates")
+    tup = [x for x in ast.walk(g.node) if isinstance(x, ast.Tuple) and len(x.elts) == 3 and any("cos" in norm(e) for e in x.elts)]
+    if len(tup) != 1:
+        raise AnchorMissing("ThetaRZGrid.getCoordinates: (r cos, r sin, z)")
+    r.require("cos" in norm(tup[0].elts[0]) and "sin" in norm(tup[0].elts[1]) and "sin" not in norm(tup[0].elts[0]), "ThetaRZGrid.getCoordinates:x-is-r-cos-theta", g, node=tup[0],
+              msg=f"`{norm(tup[0])}`: the Cartesian coordinates of a theta-R-Z cell are mirrored about the 45-degree line")
+
+
 def run(idx, chk):
     chk.explanation = (
         "C07: hex unit steps extracted as exact matrices over Q(sqrt3)[pitch]; neighbour vectors of length pitch in counter-clockwise 60-degree steps for "
@@ -589,3 +612,5 @@ def run(idx, chk):
                  necessary="coordinates and indices are handed over in (i, j, k) / (x, y, z) order")
     chk.run_rule("R07.14", "index arguments of grid functions are used; minimum rings for n cells is exact for n = 1..6000 (evaluated)", lambda r: r14_index_arguments_used_and_ring_count(idx, r), floor=20,
                  necessary="ring/position <-> index conversions are mutually inverse for every axial index; a minimum ring count holds its cells")
+    chk.run_rule("R07.15", "bounds helpers refuse negative indices alike; theta-R-Z to Cartesian is (r cos, r sin, z)", lambda r: r15_bounds_guards_and_polar_axes(idx, r), floor=3,
+                 necessary="cell base, centre and top come from one consistent affine map of the index; conversions are mutually inverse")
